@@ -1,5 +1,5 @@
 """C02 - each connection gets exactly one UP, then messages, then exactly one DOWN; clean destruction"""
-from .. import conn_oracle, server_free
+from .. import conn_oracle, owner_common, server_free
 from ..conn_common import ConnProp
 from ._conn_texts import ASSUME, TRUSTED
 
@@ -7,6 +7,8 @@ from ._conn_texts import ASSUME, TRUSTED
 class Prop(ConnProp):
     id = "C02"
     lean_module = "MuduoVerif.Props.C02"
+    gen_engines = ConnProp.gen_engines + ["Pool", "Owner"]   # Owner: the multi-loop ownership protocol of TcpServer
+    drivers = ConnProp.drivers + ["owner"]
     technique = ("Lean 4 invariant proof (life-cycle automaton accepted by every history of the TcpConnection model) + T1 "
                  "guard/hand-off extraction + differential run vs. the real TcpConnection over all close causes")
     level_text = ("Kernel-checked theorems over every history of the connection model (all close causes: peer FIN/RST as poll "
@@ -17,9 +19,19 @@ class Prop(ConnProp):
                   "kDisconnected, a released connection is destroyed by the next iteration (object freed, descriptor closed exactly once), forceClose() "
                   "on any thread destroys it within two iterations. "
                   "Model tied to the code by T1 extraction and a differential run; an independent life-cycle oracle runs on the "
-                  "implementation's own callback trace")
-    level_note = ("Single loop: the cross-loop hop of TcpServer::removeConnection is collapsed; callback thread affinity is by "
-                  "construction of the model and observed (thread ids) in the harness. TcpClient-side ownership (disconnect/stop/"
+                  "implementation's own callback trace. "
+                  "TcpServer's multi-loop ownership protocol (Model/Owner.lean: acceptor loop + L io loops as FIFO functor queues, "
+                  "any number of connections, every interleaving of loops, user calls, ~TcpServer, loop exit): owner_updown, "
+                  "owner_down_once, owner_affinity (callbacks on the assigned loop, map only on the base loop, no assertion), "
+                  "round_robin, owner_map (assert(n==1) never fails), owner_destroy_clean, owner_no_leak, server_destruction, for all "
+                  "L, all numbers of connections and all schedules, under two explicit hypotheses with negation witnesses: distinct "
+                  "names (owner_name_collision_witness) and no connectEstablished/connectDestroyed functor stranded when an "
+                  "EventLoop object dies (owner_stranded_witness)")
+    level_note = ("Connection engine: single loop, the cross-loop hop of TcpServer::removeConnection is collapsed there (it is the Owner "
+                  "engine's subject: hand-off kinds/targets/holds, name buffer, id increment, life token, final drain extracted by "
+                  "vlib/gen/owner.py; deterministic differential run of the real TcpServer with gated loop threads, harness/owner_drv.cc, "
+                  "against drv_owner under the same schedule, vlib/owner_common.py). The Owner model abstracts the byte stream, timers "
+                  "and forceCloseWithDelay. TcpClient-side ownership (disconnect/stop/"
                   "destruction of the client) is decided under C12's engine (client_drv), incl. the repaired F26. "
                   "TcpServer's side (connection map and names, removeConnection's hop io loop -> base loop -> io loop, ~TcpServer with "
                   "live connections, io-thread assignment) is exercised only by free-running scenarios around the real TcpServer "
@@ -31,7 +43,10 @@ class Prop(ConnProp):
             "free-running TcpServer scenarios (vlib/server_free.py: N in 0..3 io threads, 127.0.0.1 / ::1 / a long v4-mapped IPv6 "
             "listen address, kernel-chosen port, epoll/poll, 1..12 concurrent raw-socket peers ending by peer FIN, peer RST, "
             "shutdown(), forceClose(), forceCloseWithDelay() or destruction of the TcpServer with connections up, new "
-            "connections accepted while old ones close), oracle only")
+            "connections accepted while old ones close), oracle only. Plus Owner cases (vlib/owner_common.gen_case: L in 0..3 io "
+            "loops, <= 6 raw peers, schedules of iter/step per loop thread, send/FIN/RST, forceClose/shutdown/hold/drop from a "
+            "foreign thread, server destroyed inside the base loop or after quit() with closes in flight): model == implementation "
+            "trace (conn, event, loop thread) per step + independent oracle")
     trusted_base = TRUSTED
     assumptions = ASSUME
     oracles = [conn_oracle.updown_oracle]
@@ -41,9 +56,13 @@ class Prop(ConnProp):
         # a replay whose first line is `engine=server ...` is a free-running TcpServer scenario
         if replay and server_free.is_server_replay(replay):
             return server_free.replay(ctx, self.id, replay)
+        if replay and owner_common.is_owner_replay(replay):
+            return owner_common.replay(ctx, self.id, replay)
         ConnProp.correspondence(self, ctx, replay)
         if not replay and not ctx.stop():
             server_free.explore(ctx, self.id)
+        if not replay and not ctx.stop():
+            owner_common.explore(ctx, self.id)
 
 
 PROP = Prop()
